@@ -118,6 +118,10 @@ func memoWorldSessions() [][]string {
 		{"x = 1", "sv = func() {save(); 1}", "sv()", "x = 2", "sv()", "x = 3", "load(); println(x)"},
 		{"x = 7", `save("b"); 0`, "ld = func(f) {load(f)}", `ld("b"); println(x)`, "x = 8", `ld("b"); println(x)`, "x = 9", `w = func(f) {ld(f); 1}; w("b"); println(x)`, "x = 10", `w("b"); println(x)`},
 		{"x = 1", `snap = func(f) {save(f); x = x + 1; x}`, `println(snap("c"))`, `println(snap("c"))`, `load("c"); println(x)`},
+		// an extension that fails at first and succeeds once the world has changed, absorbed by catch() in the wrapper
+		{`missing = func(n) {catch(image.png(n)).err}`, `println(missing("q1"))`, `image.new("q1", 2, 2); 0`, `println(missing("q1"))`, `w = func(n) {[missing(n), n]}; println(w("q2"))`, `image.new("q2", 2, 2); 0`, `println(w("q2"))`},
+		{`nofile = func(f) {r = catch(load(f)); if r.err {"missing"} else {"loaded"}}`, `println(nofile("nf"))`, `x = 1; save("nf"); 0`, `println(nofile("nf"))`},
+		{`sz = func(n) {r = catch(image.set(n, 3, 3, [1, 2, 3])); r.err}`, `image.new("q3", 2, 2); println(sz("q3"))`, `image.new("q3", 8, 8); println(sz("q3"))`},
 		// the images of the session
 		{`mkimg = func(n) {image.new("im", n, n); n}`, "println(mkimg(2))", `println(len(image.png("im")))`, `image.new("im", 9, 9); println(len(image.png("im")))`, "println(mkimg(2))", `println(len(image.png("im")))`},
 		{`size = func() {len(image.png("im"))}`, `image.new("im", 2, 2); println(size())`, `image.new("im", 9, 9); println(size())`, `image.set("im", 1, 1, [255, 0, 0]); println(size() > 0)`},
